@@ -31,7 +31,9 @@ META = dict(
          "Close only after Retry.Max+1 final requests carried that partition and were refused for it). Every behaviour of the small machines "
          "(sequential; marks inside the commit window incl. ABA and metadata-only changes) and seeded simulations over 3 partitions on "
          "2 topics are executed on the real code (public API only) and every clause is evaluated by TLC on the recorded "
-         "requests, coordinator store and NextOffset results; thorough adds ticker-driven auto-commit with 2-3 marking goroutines.",
+         "requests, coordinator store and NextOffset results; the coordinator also injects connection faults per commit (FIN or RST after "
+         "reading the request, before/after applying it, or on the idle connection; afterwards the same coordinator stays or it moves) at manual "
+         "commits, ticker commits and the final attempts of Close with Retry.Max 0/1/3; thorough adds ticker-driven auto-commit with 2-3 marking goroutines.",
     note="bounded model; marks between two partitions' snapshots and between two partitions' response handling are explored "
          "exhaustively in the model but reached on the real code only by the free-running ticker family (thorough); a pending "
          "position that differs from the stored one must be carried by the NEXT commit request; coordinator simulated "
@@ -79,11 +81,11 @@ def gen_one(ctx, cfg, sim, seed):
 def gen_cases(ctx, out):
     thorough = ctx.tier == "thorough"
     plan = [("OffsetManager.gen.seq.cfg", 0), ("OffsetManager.gen.win.cfg", 0), ("OffsetManager.gen.win3.cfg", 0),
-            ("OffsetManager.gen.close.cfg", 0),
+            ("OffsetManager.gen.close.cfg", 0), ("OffsetManager.gen.conn.cfg", 0), ("OffsetManager.gen.conn2.cfg", 0),
             ("OffsetManager.sim.seq.cfg", 6000 if thorough else 300), ("OffsetManager.sim.win.cfg", 9000 if thorough else 400)]
     stats = []
     n = 0
-    with concurrent.futures.ThreadPoolExecutor(max_workers=6) as ex:
+    with concurrent.futures.ThreadPoolExecutor(max_workers=8) as ex:
         futs = [ex.submit(gen_one, ctx, cfg, sim, ctx.seed) for cfg, sim in plan]
         res = [f.result() for f in futs]
     with open(out, "w") as f:
@@ -113,7 +115,7 @@ def run(ctx):
         t0 = time.time()
         ncases, nticks, gstats = gen_cases(ctx, cases)
         t1 = time.time()
-        rc, out, trace, sums = ctx.go_test_parallel("^TestVerifOffsetManager$", cases, nproc=8, timeout=1500 if thorough else 300,
+        rc, out, trace, sums = ctx.go_test_parallel("^TestVerifOffsetManager$", cases, nproc=8, timeout=1500 if thorough else 900,
                                                     name="om", only=ONLY)
         ctx.need_go(rc, out, "offset manager replay")
         t2 = time.time()
@@ -208,10 +210,14 @@ def run(ctx):
                         "racing ticker scenarios where only the safety clauses apply)",
                         "a pending position that differs from the stored one must be carried by the next commit request "
                         "(reading of 'sent by a later commit')",
-                        "Close / Commit verdicts about unsent or lost marks are given only when every failed flush is one the simulated "
-                        "coordinator saw: all errors delivered on the Errors() channels are recorded, and a call during which a lost partition "
-                        "received more errors than the coordinator's answers explain (lookup, dial or connection failure on the client side) is "
-                        "counted as unsteered and not judged",
+                        "Close / Commit verdicts about unsent or lost marks: every flush must either reach the coordinator or run into a "
+                        "connection fault the coordinator side injected (graceful close / reset after reading the request, or of the idle "
+                        "connection; each is an event of the trace and counts as one refusal). All errors delivered on the Errors() channels are "
+                        "recorded with their class; a call is unsteered (counted, not judged) when a dial / coordinator-lookup / timeout / "
+                        "unclassified error was delivered to the partition concerned or the coordinator side saw a connection event it did not "
+                        "script. A flush that fails with EOF / reset / broken pipe although the coordinator side did nothing to the connection "
+                        "(client failing locally on a dead connection object while the coordinator is reachable and unchanged) is NOT excused: "
+                        "it neither counts as a refusal nor un-steers",
                         "the coordinator is simulated: MockBroker transport, own offset store, answers scripted by the TLC behaviour",
                         "model bounds: 2 partitions, offsets 0..2, 2 metadata values, 3 calls, <=2 commits + final attempts, 1 fault (exhaustive); "
                         "3 partitions, offsets 0..4, 8-10 calls, 4 commits, 5 faults (simulation)"],
